@@ -111,29 +111,6 @@ End SqliteWindow.
 Definition text_le_iso_ms (ws end_ms : Z) : bool :=
   if ws mod 1000000 =? 0 then ws <=? end_ms else floor_ms ws <? end_ms.
 
-(* the trimming loop of get_events as it is now (fix fc100f3: the start clip never hands out a
-   negative duration).  Model/PeeweeStore.v's pw_clip is the same loop without the clamp;
-   this is the refinement C03 reads through.  `e.timestamp = starttime` floors to the
-   millisecond (Event's setter).
-     if starttime and e.timestamp < starttime:
-         e_end = e.timestamp + e.duration; e.timestamp = starttime
-         e.duration = max(timedelta(0), e_end - e.timestamp)
-     if endtime and e.timestamp + e.duration > endtime:
-         e.duration = endtime - e.timestamp *)
-Definition pwx_clip (st en : option Z) (e : event) : event :=
-  let e1 := match st with
-            | Some ws => if ts e <? ws
-                         then let e_end := ts e + dur e in
-                              let t' := floor_ms ws in
-                              set_dur (set_ts e t') (Z.max 0 (e_end - t'))
-                         else e
-            | None => e
-            end in
-  match en with
-  | Some we => if we <? ts e1 + dur e1 then set_dur e1 (we - ts e1) else e1
-  | None => e1
-  end.
-
 Section PeeweeWindow.
   Variable sql_end_ms : Z -> Z -> Z.
 
@@ -152,7 +129,7 @@ Section PeeweeWindow.
       match pw_key c b with
       | Some k =>
           let rows := select_where (fun r => (pe_bucket r =? k) && pwx_in_range st en r) (pw_events c) in
-          Ok (OEvents (map (fun r => pwx_clip st en (prow_event r))
+          Ok (OEvents (map (fun r => pw_clip st en (prow_event r))
                            (sql_limit limit (pw_order_ts_desc rows))))
       | None => Err KeyError
       end.
